@@ -537,13 +537,21 @@ class Object(ObjectAliasMixin):
         See also: [`docstring`][griffe.Object.docstring],
         [`has_docstring`][griffe.Object.has_docstring].
         """
+        return self._has_docstrings(set())
+
+    def _has_docstrings(self, seen: set[str]) -> bool:
+        # Public aliases are followed: `seen` stops the walk when an alias leads back
+        # to an object we are already looking into (a module re-exporting its own package).
         if self.has_docstring:
             return True
+        seen.add(self.path)
         for member in self.members.values():
             try:
-                if (not member.is_imported or member.is_public) and member.has_docstrings:
-                    return True
-            except AliasResolutionError:
+                if not member.is_imported or member.is_public:
+                    target = member.final_target if member.is_alias else member
+                    if target.path not in seen and target._has_docstrings(seen):  # type: ignore[union-attr]
+                        return True
+            except (AliasResolutionError, CyclicAliasError):
                 continue
         return False
 
